@@ -36,6 +36,10 @@ def Good {α : Type} (n na : Nat) (T : List Nat) (m : M α) (post : α → Prop)
 
 variable {n na : Nat} {T : List Nat}
 
+/-- the measured fact that a derived class gets its own deep copy of `sqla_column_args` -/
+class DeepCopy (F : Facts15) : Prop where
+  deep : F.colCopy = .deep
+
 theorem Good.pure {α : Type} (a : α) : Good n na T (Pure.pure a : M α) (fun x => x = a) := by
   intro h _ _
   refine ⟨Ext.refl _ _ _ _, ?_⟩
